@@ -83,6 +83,27 @@ T = {
  "C19E": ("task timestamps written with COALESCE (never cleared)", "save None over a recorded timestamp", "C19 quick", "missed at first: fill-then-clear rounds added", None),
  "C19F": ("empty-string control-flow settings read back as None", "mutex_key = ''", "C19 quick", "", None),
  "C20E": ("malformed stageEnabled expression parsed outside the evaluator (SyntaxError)", "a syntactically broken condition", "C20 quick", "", None),
+ # wave 6
+ "C01G": ("execute_atomic marks the message processed through the store (own commit) inside the open transaction", "crash between that early commit and the follow-up messages", "C01 quick", "", None),
+ "C01H": ("StartTask commits the task RUNNING, then pushes RunTask outside the transaction", "crash between the two", "C01 quick", "", None),
+ "C02G": ("ContinueParentStage starts the first NOT_STARTED task", "two parallel before-stages (two ContinueParentStage messages) and two tasks", "C02 quick", "missed at first: workload with two parallel before-stages AND two own tasks added", None),
+ "C02H": ("ancestor outputs merged in completion (end_time) order", "parallel branches publishing the same key, finishing in the other order", "C02 quick", "missed at first: the handlers' millisecond clock is now a logical clock owned by the harness, the completion order of stages is part of the state identity in a dedicated job, and what every execution sees is compared with the in-order run", None),
+ "C03G": ("_record_activated_branches 'fixed' to find the OR join (which then ignores a multi-stage activated branch)", "OR-split with a two-stage activated branch into an OR join", "C03 quick", "missed at first: the oracle read the engine's own _activated_branches; it now derives the deselected branches from the split's conditions and durable outputs; long-branch workload added", None),
+ "C03H": ("StartTask's main path does not mark its delivery processed in the transaction", "worker death before the processor's mark, a jump re-arms the stage, redelivery", "C03 quick", "missed at first: worker death on loops added to C03's quick tier", None),
+ "C05G": ("'core work done' no longer counts FAILED_CONTINUE", "task FAILED_CONTINUE on a stage with an after-stage declared in the definition", "C05 quick", "missed at first: synthetic children could only be builder-planned; workloads may now declare them", None),
+ "C05H": ("OR-split forgets the branch whose condition cannot be evaluated", "a condition raising ExpressionError next to a branch that activates", "C05 quick", "missed at first: workload with an un-evaluable split condition added", None),
+ "C06G": ("store.pause() only refuses halted executions (SUCCEEDED may be paused)", "operator pause after a successful completion", "C06 quick", "", None),
+ "C06H": ("ContinueParentStage's failure paths assign TERMINAL without transition validation", "two parallel before-stages, one failing, parent continue-on-failure", "C06 quick", "missed at first: failing parallel before-stage workload added", None),
+ "C09G": ("execute_atomic_critical lost its processed mark", "permanent task failure, worker death before the processor's mark", "C02 quick (not C09)", "a re-execution after a recorded result is C02's subject and C02 reports it; C09 as worded presupposes that effects and record were committed together (a check demanding that of every handler fires on the unmodified tree and was withdrawn)", None),
+ "C09H": ("a processor skips hydration when the process-wide filter is already authoritative", "one process serving two databases, negatives trusted, restart", "C09 quick", "missed at first: restart in a process whose filter another store's processor hydrated first added", None),
+ "C10G": ("StartTask guard weakened to is_complete", "sweep in the window before ContinueParentStage", "C10 quick (E3)", "", None),
+ "C10H": ("redirecting RunTask pushes CompleteTask before JumpToStage", "jump from a non-last task, sweep between the two deliveries", "NOT DETECTED (neutralised)", "the workload added for it (a jump from a non-last task) showed that the unmodified engine had the same defect under plain reordering; fix 3a003d0 closed the window and with it this change no longer breaks the property (its demonstration passes on the repaired tree)", None),
+ "C12G": ("stage-failed event recorded from the stale stage object", "exception while planning a stage", "C12 quick", "", None),
+ "C12H": ("no completion event for a stage completing CANCELED through CompleteStage", "cancel racing a running task in a particular order", "C12 quick", "", None),
+ "C16G": ("a jumping task's outputs are not recorded on its own stage", "forward jump with outputs", "C16 quick", "", None),
+ "C16H": ("a backward jump does not re-arm downstream stages still in flight", "a side branch of the jump target in flight when the jump is handled", "C16 quick", "missed at first: loop with a side branch that depends on the jump target added (which also exposed the stale-StartTask defect repaired by 21d1ed0) and a 'no branch of an earlier iteration feeds the current one' check", None),
+ "C17G": ("queued-task cancellation goes through the stage failure policy", "continue-on-failure stage, RunTask overtaking CancelStage", "C17 quick", "", None),
+ "C17H": ("CancelStage's processed mark moved out of the state transaction", "crash between the two commits", "C17 quick (E2)", "", None),
  "C20F": ("OR-split forgets to skip the branch with a malformed condition", "one malformed condition next to a branch that activates", "C20 quick", "missed at first: the callers were only checked for not raising; the activated / skipped partition is now compared with the evaluator's verdict", None),
 }
 
